@@ -2,7 +2,10 @@
 
 package slip
 
-import "strings"
+import (
+	"regexp"
+	"strings"
+)
 
 // SymbolSymbol is the symbol with a value of "symbol".
 const SymbolSymbol = Symbol("symbol")
@@ -20,6 +23,10 @@ func (obj Symbol) Append(b []byte) []byte {
 	return obj.Readably(b, &printer)
 }
 
+// numberLikeRegex matches the tokens the reader takes for an integer, a
+// ratio, or a float.
+var numberLikeRegex = regexp.MustCompile(`^[-+]?([0-9]+\.?|[0-9]+/[0-9]+|[0-9]*\.[0-9]+([esfdlESFDL][-+]?[0-9]+)?|[0-9]+\.?[0-9]*[esfdlESFDL][-+]?[0-9]+)$`)
+
 // Readably appends the object to a byte slice. If p.Readbly is true the
 // objects is appended in a readable format otherwise a simple append which
 // may or may not be readable.
@@ -27,17 +34,37 @@ func (obj Symbol) Readably(b []byte, p *Printer) []byte {
 	if len(obj) == 0 {
 		return append(b, '|', '|')
 	}
-	if obj[0] == ':' {
-		return append(b, p.caseName(string(obj))...)
+	name := string(obj)
+	if name[0] == ':' {
+		b = append(b, ':')
+		name = name[1:]
 	}
-	for _, c := range []byte(obj) {
-		if needPipeMap[c] == 'x' {
-			b = append(b, '|')
-			b = append(b, p.caseName(string(obj))...)
-			return append(b, '|')
+	if needsPipes(name) {
+		b = append(b, '|')
+		b = append(b, p.caseName(name)...)
+		return append(b, '|')
+	}
+	return append(b, p.caseName(name)...)
+}
+
+// needsPipes returns true if a symbol with the name would not be read back
+// as that symbol if written without vertical bars.
+func needsPipes(name string) bool {
+	if len(name) == 0 {
+		return false
+	}
+	hasDigit := strings.ContainsAny(name, "0123456789")
+	for _, c := range []byte(name) {
+		// A slash is only a problem next to digits where the token
+		// could be taken for a ratio.
+		if needPipeMap[c] == 'x' && (c != '/' || hasDigit) {
+			return true
 		}
 	}
-	return append(b, p.caseName(string(obj))...)
+	if strings.Trim(name, ".") == "" {
+		return true // only dots
+	}
+	return hasDigit && numberLikeRegex.MatchString(name)
 }
 
 // Simplify the Object into a string.
